@@ -302,6 +302,8 @@ def run(repo: Repo, rep: Report) -> None:
                    "native conversion guarded by a finiteness test" if guarded else
                    "a literal's Python value (possibly float('nan') / inf) enters the JSON tree and json.dumps is not called with allow_nan=False: the output contains bare NaN / Infinity", node=c)
 
+    iri_resolution_rule(repo, rep)
+
 
 def xmlns_agreement(repo: Repo, rep: Report, RULE: str) -> None:
     """every prefix used in an element name is declared: the function that collects the xmlns declarations splits
@@ -322,3 +324,39 @@ def xmlns_agreement(repo: Repo, rep: Report, RULE: str) -> None:
     ok = strict["XMLSerializer.__bindings"] == strict["XMLSerializer.predicate"] == {True}
     rep.ob(RULE, mod, "XMLSerializer", "declarations and element names both use the strict split", ok,
            "every used prefix is declared" if ok else "xmlns declarations and element names are computed with different qname functions: for a predicate whose local part is not an NCName the element uses a prefix that is never declared (unbound prefix, not namespace-well-formed)", node=mod.func("XMLSerializer.predicate"))
+
+
+# where IRI references read from a document are resolved against the base: (module, function) per syntax family
+IRI_RESOLVERS = [
+    ("rdflib.plugins.parsers.notation3", "join", "Turtle / TriG / N3"),
+    ("rdflib.plugins.parsers.rdfxml", "RDFXMLHandler.absolutize", "RDF/XML"),
+    ("rdflib.plugins.shared.jsonld.util", "norm_url", "JSON-LD"),
+]
+
+
+def iri_resolution_rule(repo: Repo, rep: Report) -> None:
+    """(d) sibling agreement of relative-IRI resolution"""
+    rep.rule("C05.d-iri-resolution-keeps-empty-components",
+             "the resolvers of IRI references of the parsers agree on RFC 3986 section 5.2: the reference's query and path are kept as written. A resolver that "
+             "delegates to urllib.parse.urljoin does not: urljoin re-assembles the result with urlunsplit, which drops an empty query ('a?') and empty path "
+             "parameters ('o;') (a fact of the standard library on every interpreter rdflib supports); the Turtle-family resolver works on the strings "
+             "and keeps them. (URIRef(ref, base=...), used for SPARQL BASE, shares the flaw but SPARQL text is outside this property.)", floor=3)
+    for modname, q, what in IRI_RESOLVERS:
+        mod = repo.mod(modname)
+        f = mod.func(q)
+        rep.analysed("%s:%s" % (mod.rel, q))
+        calls = [c for c in own_nodes(f) if isinstance(c, ast.Call) and norm(c.func).split(".")[-1] == "urljoin"]
+        # a urljoin whose result only feeds the *path* of a hand-assembled result is not a whole-reference resolution
+        whole = []
+        for c in calls:
+            second = c.args[1] if len(c.args) > 1 else None
+            if second is not None and isinstance(second, ast.Attribute) and second.attr == "path":
+                continue
+            whole.append(c)
+        if not whole:
+            rep.ob("C05.d-iri-resolution-keeps-empty-components", mod, q, "%s: no whole-reference urljoin" % what, True, "resolves on the strings", node=f)
+        for c in whole:
+            rep.ob("C05.d-iri-resolution-keeps-empty-components", mod, q, c, False,
+                   "%s: the reference is resolved with urljoin: with base <http://example/> the legal references <a?> and <o;> (and, for a base of the same scheme, "
+                   "the absolute <http://example/a?>) become <http://example/a> and <http://example/o>, where the Turtle parser reads <http://example/a?> and "
+                   "<http://example/o;> from the same spelling" % what, node=c)
